@@ -77,6 +77,25 @@ pub fn gen(out: &mut dyn Write, seed: u64, thorough: bool) {
         let mut ab = a.clone();
         ab.extend(b.iter());
         writeln!(out, "P list {} => {}", fmt_idx(&ab), fmt_list(&sl)).unwrap();
+        // ... and the list extended in place behaves like that white-list everywhere it is used: the symbol picked
+        // for n lowercase letters (ASCII only) and for 2n digits (the early capacity exit), the capacity accessors
+        if !ab.is_empty() {
+            let caps: Vec<usize> = ab.iter().map(|i| vh::size_info(sizes[*i]).num_data_codewords).collect();
+            let maxcw = *caps.iter().max().unwrap();
+            let mut ns: Vec<usize> = caps.iter().flat_map(|c| [c.saturating_sub(1), *c, c + 1]).collect();
+            ns.push(maxcw / 2 + 1);
+            ns.sort(); ns.dedup();
+            for n in ns {
+                if n > 400 { continue; }
+                for data in [vec![b'a'; n], vec![b'7'; 2 * n]] {
+                    let sl2 = sl.clone();
+                    let r = guarded(move || DataMatrixBuilder::new().with_symbol_list(sl2).with_encodation_types(EncodationType::Ascii).encode(&data));
+                    let ans = match r { Ok(Ok(dm)) => size_index(dm.size).to_string(), Ok(Err(_)) => "none".into(), Err(_) => "panic".into() };
+                    writeln!(out, "P first {} {} => {}", fmt_idx(&ab), n, ans).unwrap();
+                }
+            }
+            writeln!(out, "M maxcap {} => {}", fmt_idx(&ab), vh::max_capacity(&sl)).unwrap();
+        }
     }
     // filters
     let bounds = all_bounds(150);
@@ -88,11 +107,12 @@ pub fn gen(out: &mut dyn Write, seed: u64, thorough: bool) {
         for kind in ["w", "h"] {
             let emit = |lo: &Bound<usize>, hi: &Bound<usize>, out: &mut dyn Write| {
                 let sl = wl(base);
-                let r = if kind == "w" {
-                    sl.enforce_width_in((*lo, *hi))
+                let (lo2, hi2) = (*lo, *hi);
+                let r = guarded(move || if kind == "w" {
+                    sl.enforce_width_in((lo2, hi2))
                 } else {
-                    sl.enforce_height_in((*lo, *hi))
-                };
+                    sl.enforce_height_in((lo2, hi2))
+                });
                 writeln!(
                     out,
                     "P filt {} {} {} {} => {}",
@@ -100,10 +120,19 @@ pub fn gen(out: &mut dyn Write, seed: u64, thorough: bool) {
                     bound_str(lo),
                     bound_str(hi),
                     fmt_idx(base),
-                    fmt_list(&r)
+                    match &r { Ok(l) => fmt_list(l), Err(_) => "panic".to_string() }
                 )
                 .unwrap();
             };
+            // the ends of the integer range as bounds ("every range")
+            for big in [usize::MAX, usize::MAX - 1, u32::MAX as usize, u16::MAX as usize + 1, 256] {
+                for b in [Bound::Included(big), Bound::Excluded(big)] {
+                    for other in [Bound::Unbounded, Bound::Included(0), Bound::Included(20), Bound::Excluded(8), Bound::Included(big), Bound::Excluded(big)] {
+                        emit(&other, &b, out);
+                        emit(&b, &other, out);
+                    }
+                }
+            }
             if thorough {
                 for lo in &bounds {
                     for hi in &bounds {
@@ -255,6 +284,28 @@ pub fn gen(out: &mut dyn Write, seed: u64, thorough: bool) {
                 Err(_) => "panic".into(),
             };
             writeln!(out, "P first {} {} => {}", fmt_idx(l), n, ans).unwrap();
+            // the same request as a Macro 05 / 06 message: header and trailer (nine characters) cost one codeword,
+            // then 2(n-1) digits; the first symbol that holds n codewords must be picked
+            if n >= 1 && (n <= 12 || n % 5 == 0 || n + 2 >= maxcw) {
+                for head in [&b"[)>\x1E05\x1D"[..], b"[)>\x1E06\x1D"] {
+                    let mut data = head.to_vec();
+                    data.extend(std::iter::repeat(b'7').take(2 * (n - 1)));
+                    data.extend_from_slice(b"\x1E\x04");
+                    let sl2 = sl.clone();
+                    let r = guarded(move || {
+                        DataMatrixBuilder::new()
+                            .with_symbol_list(sl2)
+                            .with_encodation_types(EncodationType::Ascii)
+                            .encode(&data)
+                    });
+                    let ans = match r {
+                        Ok(Ok(dm)) => size_index(dm.size).to_string(),
+                        Ok(Err(_)) => "none".into(),
+                        Err(_) => "panic".into(),
+                    };
+                    writeln!(out, "P first {} {} => {}", fmt_idx(l), n, ans).unwrap();
+                }
+            }
         }
     }
     // the symbol list survives every other builder setter, in every call order: all 24 orders of the four
